@@ -109,6 +109,7 @@ def shards(tier, seed):
         out += dd.seq_shards("plain-" + tok, "A2", len(A2), d[tok], tok)
     for ti in range(len(TEMPLATES)):
         out += dd.residue_shards("fragedit-AC", "fe", "AC", 16 if d["FE"] > 1 else 2, {"t": ti, "edits": d["FE"]})
+    out += dd.residue_shards("transform-sensitive-AC", "ts", "AC", 16)
     lo, hi = WINDOW_RANGE[tier]
     for tok in ("AC", "HS"):
         out += dd.residue_shards("window-" + tok, "win", tok, 8, {"lo": lo, "hi": hi})
@@ -119,6 +120,8 @@ def run_shard(sh):
     st = Stats()
     if sh["kind"] == "seq":
         cases = dd.seq_cases(sh, ALPHABETS)
+    elif sh["kind"] == "ts":
+        cases = ({"part": sh["part"], "tok": sh["tok"], "text": t} for t in dd.sliced(docspace.ts_documents(3), sh["r"], sh["n"]))
     elif sh["kind"] == "win":
         gen = (form.format(f=filler(n)) for n in range(sh["lo"], sh["hi"] + 1) for form in WINDOW_FORMS)
         cases = ({"part": sh["part"], "tok": sh["tok"], "text": t} for t in dd.sliced(gen, sh["r"], sh["n"]))
